@@ -50,11 +50,18 @@ Verdict(T) ==
          ELSE IF F2 = {} /\ F1 = {} THEN (IF T.out # "raise:ValueError" THEN <<"C17.infeasible_request_not_refused_with_ValueError:" \o T.out>> ELSE <<>>)
          ELSE IF F2 = {} THEN (IF T.out # "raise:ValueError" THEN <<"C17.order_infeasible_request_answered:" \o T.out>> ELSE <<"C17.S1.refused_although_a_partition_satisfies_the_request">>)
          ELSE IF T.out # "ret" THEN <<"C17.feasible_request_failed:" \o T.out>>
-         ELSE IF ~IdsValid(T.vals, r) \/ Len(T.lists) # k THEN <<"C17.malformed_result">>
-         ELSE LET s == BinSums(T.vals, T.lists)
+         ELSE IF (T.fmt = "dict" /\ ~IdsValid(T.vals, r)) \/ Len(T.lists) # k \/ Len(T.lvals) # k THEN <<"C17.malformed_result">>
+         ELSE LET \* plain-list input: an item IS its value, so the result is read as bins of values and copies are counted per value
+                  bv == IF T.fmt = "list" THEN T.lvals ELSE [j \in 1..k |-> ValsOf(T.vals, T.lists[j])]
+                  s == [j \in 1..k |-> SumSeq(bv[j])]
                   ws == WS(s, w)
-              IN (IF \E i \in 1..Len(T.vals) : count(i) # T.copies[i] THEN <<"C17.copies_not_honoured">> ELSE <<>>)
-              \o (IF ~SumsDescribeBins(T.vals, r) THEN <<"C17.sums_do_not_describe_bins">> ELSE <<>>)
+                  flatv == Flatten(bv)
+                  occ(u) == Cardinality({ t \in 1..Len(flatv) : flatv[t] = u })
+                  wantocc(u) == SumSeq([i \in 1..Len(T.vals) |-> IF T.vals[i] = u THEN T.copies[i] ELSE 0])
+                  copiesOK == IF T.fmt = "list" THEN \A u \in SeqRange(T.vals) \cup SeqRange(flatv) : occ(u) = wantocc(u)
+                                                ELSE \A i \in 1..Len(T.vals) : count(i) = T.copies[i]
+              IN (IF ~copiesOK THEN <<"C17.copies_not_honoured">> ELSE <<>>)
+              \o (IF ~T.exact \/ T.sums # s THEN <<"C17.sums_do_not_describe_bins">> ELSE <<>>)
               \o (IF AllEqual(w) /\ ~NonDec(s) THEN <<"C17.sums_not_ascending">> ELSE <<>>)
               \o (IF ~AllEqual(w) /\ ~NonDec(ws) THEN <<"C17.bin_i_is_not_the_bin_of_weight_i">> ELSE <<>>)
               \o (IF ~ConsHolds(T.cons, T.c, ws, L) THEN <<"C17.additional_constraint_violated">> ELSE <<>>)
